@@ -3,7 +3,7 @@ from __future__ import annotations
 
 import z3
 
-from engine.pyvals import NONE, PyObj, PyTuple, Tok, TokSeq, is_tok, truthy as z3_truthy
+from engine.pyvals import NONE, PyObj, PyTuple, Tok, TokSeq, Val, is_tok, truthy as z3_truthy
 from engine.pyvc import Tr, lift
 
 CLASSES = {
@@ -36,6 +36,10 @@ CLASSES = {
     # an ast node as far as the error helpers look at it: the four position attributes (end_* may be None in general; the
     # grammar only passes nodes built with LOCATIONS, see C04)
     "PosNode": {"lineno": "int", "col_offset": "int", "end_lineno": "int", "end_col_offset": "int"},
+    # the ast nodes the subprocess-argument builders distinguish (positions + what they read); `elts` is not modelled
+    "ast.Constant": {"value": "str", "lineno": "int", "col_offset": "int", "end_lineno": "int", "end_col_offset": "int"},
+    "ast.Starred": {"lineno": "int", "col_offset": "int", "end_lineno": "int", "end_col_offset": "int"},
+    "ast.Tuple": {"elts": "const:opaque-list", "lineno": "int", "col_offset": "int", "end_lineno": "int", "end_col_offset": "int"},
     "SyntaxError": {"msg": "str", "filename": "str", "lineno": "int", "offset": "int", "text": "str", "end_lineno": "int", "end_offset": "int",
                     "bare": "bool", "nargs": "int"},
     "TokenizerState": {
@@ -173,6 +177,38 @@ def sf_gen_count(ex, st, tk, ty, a, b):
     st.assume(z3.Implies(b - 1 <= a, GCNT(g, ty, a, b - 1) == 0))
     st.assume(c >= 0)
     return c
+
+
+LFOLD = z3.Function("literal_fold", TokSeq, z3.IntSort(), Val)
+
+
+def sf_le_isbytes(ex, st, text):
+    from engine.pyvals import LE_BYTES
+    return LE_BYTES(lift(text))
+
+
+def sf_lit_isbytes(ex, st, v):
+    return v.isbytes
+
+
+def sf_lit_val(ex, st, v):
+    return v.val
+
+
+def sf_lit_fold(ex, st, parts, n):
+    """value of literal_eval(parts[0]) + ... + literal_eval(parts[n-1]), left to right (defining equations instantiated at use)"""
+    from engine.pyvals import LCAT, LE_VAL
+    n = lift(n)
+    c = LFOLD(parts, n)
+    st.assume(z3.Implies(n == 1, c == LE_VAL(Tok.string(parts[0]))))
+    st.assume(z3.Implies(n > 1, c == LCAT(LFOLD(parts, n - 1), LE_VAL(Tok.string(parts[n - 1])))))
+    st.assume(z3.Implies(n - 1 == 1, LFOLD(parts, n - 1) == LE_VAL(Tok.string(parts[0]))))
+    return c
+
+
+def sf_has_field(ex, st, o, name):
+    nm = z3.simplify(lift(name)).as_string()
+    return z3.BoolVal(isinstance(o, PyObj) and nm in o.fields)
 
 
 def sf_prefix_of(ex, st, a, b):
@@ -355,4 +391,5 @@ def sf_node_end(ex, st, n):
 
 SPEC_FUNCS = {"lines_ok": sf_lines_ok, "node_start": sf_node_start, "node_end": sf_node_end, "node_wf": sf_node_wf, "wf_error": sf_wf_error, "tok_wf": sf_tok_wf, "toks_wf": sf_toks_wf, "lines_left": sf_lines_left, "indent_col": sf_indent_col, "indents_wf": sf_indents_wf, "is_blank_char": sf_is_blank_char, "last": sf_last, "lr_cache_ok": sf_lr_cache_ok, "cache_ok": sf_cache_ok, "cache_has": sf_cache_has, "cache_end": sf_cache_end, "cache_tree": sf_cache_tree, "em_cached": sf_em_cached, "tk_ok": sf_tk_ok, "can_peek": sf_can_peek, "layout": sf_layout, "cache_wf": sf_cache_wf, "truthy": sf_truthy, "is_none": sf_is_none, "pos_le": sf_pos_le,
               "endmarker_last": sf_endmarker_last, "endmarker_pulled": sf_endmarker_pulled, "gen_pos": sf_gen_pos,
-              "gen_len": sf_gen_len, "gen_cat": sf_gen_cat, "gen_count": sf_gen_count, "mode_kind_of": sf_mode_kind_of, "mode_level_of": sf_mode_level_of, "pat_kind": sf_pat_kind, "same_frame": sf_same_frame, "pat_q": sf_pat_q, "gen_item": sf_gen_item, "prefix_of": sf_prefix_of, "tok_type": sf_tok_type}
+              "gen_len": sf_gen_len, "gen_cat": sf_gen_cat, "gen_count": sf_gen_count, "le_isbytes": sf_le_isbytes, "lit_isbytes": sf_lit_isbytes, "lit_val": sf_lit_val,
+              "lit_fold": sf_lit_fold, "has_field": sf_has_field, "mode_kind_of": sf_mode_kind_of, "mode_level_of": sf_mode_level_of, "pat_kind": sf_pat_kind, "same_frame": sf_same_frame, "pat_q": sf_pat_q, "gen_item": sf_gen_item, "prefix_of": sf_prefix_of, "tok_type": sf_tok_type}
